@@ -170,7 +170,7 @@ def r3_digits(ctx, A):
         for ev in row["info"]["fromstr"]:
             seq = RP.seq_of_arg(ev)
             key = (ev["fn"], ev["bb"])
-            guarded = False
+            guarded = ev["callee"].get("res_path") in A.get("units", ())     # a proven 1*DIGIT unit: digits-only is part of its proof
             idx = o.events.index(ev)
             for e in o.events[:idx]:
                 if e["k"] != "call":
